@@ -13,7 +13,7 @@ RULE = ('L1: every single-clause predicate p(t1..tk) :- B, k<=2 over 14 head-arg
         'of <=2 [thorough: 3] clauses over p/1,q/1 with head argument in {X,a,b,f(X)} and body of <=1 goal '
         '[thorough, 2-clause programs: <=2 goals] over p|q x {X,Y,a,b,f(X)} (direct, mutual and left recursion, '
         'duplicate clauses), queries p(A) p(a) p(f(A)) q(A). L1b: every body of 2 or 3 [thorough: 4] goals over 10 goals whose outcome depends on WHEN they are called (callees using \\=, a cut, negation; explicit unifications). L2b: every sequence of 3 [thorough: 4] clauses of ONE predicate r/2 over 6 head shapes x 4 bodies (the same variable name as plain head argument, nested, repeated or body-only in different clauses). L3: append/member/len/nat/rev/in/path idioms over '
-        'every DAG on 3 nodes in every argument mode. L4: 6 templates with many anonymous variables (alone and combined in one program, so that the program-wide numbering of _ reaches 13) x EVERY injective naming of their two named variables from a menu of 44 names (_1.._14, look-alikes of the compiler\'s own argument, loop, flag and prefix names, Python constants). L5: two activations of the same clause alive at once (two goals of one body, recursion over a list, caller and callee) over 11 term shapes whose variables are anonymous, named or mixed, in the head or in a body goal, queried with equal, different, aliased and unbound arguments. L6: sizes beyond these bounds - pipeline clauses path(In,Out) :- step(In,A1),...,step(Ak,Out), a head variable used only by the last goal, a variable shared by the first and last goal only, for EVERY body length 1..19; tables of N clauses plus a catch-all for 23 values of N up to 130; heads of N arguments (a constant last, one variable first and last) for 14 values of N up to 300. Each program is compiled, loaded into a fresh engine and '
+        'every DAG on 3 nodes in every argument mode. L4: 6 templates with many anonymous variables (alone and combined in one program, so that the program-wide numbering of _ reaches 13) x EVERY injective naming of their two named variables from a menu of 44 names (_1.._14, look-alikes of the compiler\'s own argument, loop, flag and prefix names, Python constants). L5: two activations of the same clause alive at once (two goals of one body, recursion over a list, caller and callee) over 11 term shapes whose variables are anonymous, named or mixed, in the head or in a body goal, queried with equal, different, aliased and unbound arguments. L6: sizes beyond these bounds - pipeline clauses path(In,Out) :- step(In,A1),...,step(Ak,Out), a head variable used only by the last goal, a variable shared by the first and last goal only, for EVERY body length 1..19; tables of N clauses plus a catch-all for 23 values of N up to 130; programs whose predicates are NOT contiguous (every interleaving of 3..5 clauses of p/1, q/1, p/2 with a non-adjacent pair, a split recursive predicate); heads of N arguments (a constant last, one variable first and last) for 14 values of N up to 300. Each program is compiled, loaded into a fresh engine and '
         'every query is compared answer by answer (bindings up to renaming incl. aliasing, order, multiplicity, '
         'termination under a deterministic step budget, no exception) with RefProlog. states = distinct '
         'per-program outcome tuples; transitions = next() calls; non-trivial = some query has an answer')
@@ -391,6 +391,25 @@ def l6_cases():
         both = (F('both', V('R')), conj(*([call(F('step', V('S'), V('M')))] + filler + [call(F('step', V('M'), V('R')))])))
         yield idx, 'first-and-last-goal-share-%d' % n, steps + extra + [both], [F('both', nodes[2]), F('both', QA)] if n < 6 else [F('both', nodes[2])]
         idx += 1
+    # discontiguous predicates: the clauses of p/1, q/1 and p/2 in every interleaving of 3..5 clauses, and
+    # a recursive predicate whose base case stands apart from its recursive clause
+    preds = [('p', 1), ('q', 1), ('p', 2)]
+    for n in (3, 4, 5):
+        for pat in itertools.product(range(3), repeat=n):
+            if len(set(pat)) < 2 or all(pat[i] <= pat[i + 1] for i in range(n - 1)):
+                continue    # only interleavings in which some predicate's clauses are NOT adjacent
+            if not any(pat[i] == pat[j] and any(pat[m] != pat[i] for m in range(i + 1, j)) for i in range(n) for j in range(i + 2, n)):
+                continue
+            prog = []
+            for i, pi in enumerate(pat):
+                nm, ar = preds[pi]
+                prog.append((F(nm, *([A('c%d' % i)] + [A('x')] * (ar - 1))), None))
+            yield idx, 'discontiguous-%s' % ''.join(map(str, pat)), prog, [F('p', QA), F('q', QA), F('p', QA, QB)]
+            idx += 1
+    split = [(F('edge', A('a'), A('b')), None), (F('reach', X, X), None), (F('edge', A('b'), A('c')), None),
+             (F('reach', X, Y), (',', call(F('edge', X, V('Z'))), call(F('reach', V('Z'), Y)))), (F('edge', A('c'), A('d')), None)]
+    yield idx, 'discontiguous-recursive', split, [F('reach', A('a'), QA), F('edge', QA, QB), F('reach', QA, A('d'))]
+    idx += 1
     # wide heads: N arguments, a constant in the LAST position resp. one variable in the first and the
     # last position
     for n in (2, 3, 19, 20, 21, 64, 127, 128, 129, 254, 255, 256, 257, 300):
